@@ -62,13 +62,19 @@ def main():
         # 4. our checks against the patched tree (scratch worktree via NUMPOLY_REPO, so /repo stays usable meanwhile;
         #    equivalent to `git -C /repo apply patch; ./vcheck run P; git -C /repo checkout -- .`)
         det = {}
+        # the checks run from a private copy of /verif, so that editing /verif meanwhile cannot disturb them
+        snap = tempfile.mkdtemp(prefix="seedchk_verif_", dir="/tmp")
+        sh(f"rsync -a --exclude .git --exclude replays --exclude evidence_scratch --exclude __pycache__ {VERIF}/ {snap}/")
         for p in props:
-            rcc, outc = sh(f"NUMPOLY_REPO={wt} ./vcheck run {p} --tier quick", cwd=VERIF, timeout=3600)
+            rcc, outc = sh(f"NUMPOLY_REPO={wt} ./vcheck run {p} --tier quick", cwd=snap, timeout=3600)
+            outc = outc.replace(snap, VERIF)
             viol = [l for l in outc.splitlines() if l.startswith("VIOLATION")]
             det[p] = dict(exit=rcc, violations=len(viol), first=(viol[0] if viol else ""),
                           detail=[l.strip() for l in outc.splitlines() if l.startswith("   ")][:4],
                           undecided=[l for l in outc.splitlines() if l.startswith("UNDECIDED")][:3])
     finally:
+        if "snap" in locals():
+            shutil.rmtree(snap, ignore_errors=True)
         sh(f"git -C /repo worktree remove --force {wt}")
         shutil.rmtree(wt, ignore_errors=True)
     rec["checks"] = det
